@@ -13,21 +13,51 @@ package reftable
 //@ ghostgroup yielded = noneYet, yRefSeq, yRefName, yRefIdx, yRefVal, yRefValLen, yRefTV, yRefTVLen, yRefTarget, yRefDel, wRefAtYield, refsDone, yLogSeq, yLogName, yLogIdx, yLogNew, yLogNewLen, yLogOld, yLogOldLen, yLogPName, yLogEmail, yLogTime, yLogTZ, yLogMsg, wLogAtYield, logsDone
 //@ ghostgroup taken = wRefSeq, wRefName, wRefIdx, wRefVal, wRefValLen, wRefTV, wRefTVLen, wRefTarget, wLogSeq, wLogName, wLogIdx, wLogNew, wLogNewLen, wLogOld, wLogOldLen, wLogPName, wLogEmail, wLogTime, wLogTZ, wLogMsg
 
+// The value of a k-byte varint (the "offset" encoding of the format: each continuation adds one before shifting), written
+// out for k = 1..10 bytes. Both the decoder and the encoder are specified against these closed forms (C01, layer 1).
+//@ spec va0(b []byte) int = b[0] % 128
+//@ spec va1(b []byte) int = (va0(b) + 1) * 128 + b[1] % 128
+//@ spec va2(b []byte) int = (va1(b) + 1) * 128 + b[2] % 128
+//@ spec va3(b []byte) int = (va2(b) + 1) * 128 + b[3] % 128
+//@ spec va4(b []byte) int = (va3(b) + 1) * 128 + b[4] % 128
+//@ spec va5(b []byte) int = (va4(b) + 1) * 128 + b[5] % 128
+//@ spec va6(b []byte) int = (va5(b) + 1) * 128 + b[6] % 128
+//@ spec va7(b []byte) int = (va6(b) + 1) * 128 + b[7] % 128
+//@ spec va8(b []byte) int = (va7(b) + 1) * 128 + b[8] % 128
+//@ spec va9(b []byte) int = (va8(b) + 1) * 128 + b[9] % 128
+// length and value of the varint at the start of b, for encodings of up to 9 bytes (values below 2^63): the first byte
+// below 128 ends it
+//@ spec vlen(b []byte) int = (b[0] < 128 ? 1 : (b[1] < 128 ? 2 : (b[2] < 128 ? 3 : (b[3] < 128 ? 4 : (b[4] < 128 ? 5 : (b[5] < 128 ? 6 : (b[6] < 128 ? 7 : (b[7] < 128 ? 8 : (b[8] < 128 ? 9 : 0)))))))))
+//@ spec vval(b []byte) int = (b[0] < 128 ? va0(b) : (b[1] < 128 ? va1(b) : (b[2] < 128 ? va2(b) : (b[3] < 128 ? va3(b) : (b[4] < 128 ? va4(b) : (b[5] < 128 ? va5(b) : (b[6] < 128 ? va6(b) : (b[7] < 128 ? va7(b) : (b[8] < 128 ? va8(b) : 0)))))))))
 //@ func getVarInt
 //@   results val, n
-//@   props C18 C19
+//@   props C18 C19 C01
 //@   pure
 //@   nopanic
 //@   ensures n == -1 || (1 <= n && n <= len(buf))
-//@   loop 1 invariant 0 <= ptr && ptr < len(buf)
+//@   ensures[stops-at-the-first-terminator] n >= 1 ==> buf[n-1] < 128 && (forall k int :: 0 <= k && k < n - 1 ==> buf[k] >= 128)
+//@   ensures[fails-only-without-terminator] n == -1 ==> (forall k int :: 0 <= k && k < len(buf) ==> buf[k] >= 128)
+//@   ensures[as-spec] 1 <= n && n <= 9 ==> n == vlen(buf) && val == vval(buf)
+//@   ensures[value] (n == 1 ==> val == va0(buf)) && (n == 2 ==> val == va1(buf)) && (n == 3 ==> val == va2(buf)) && (n == 4 ==> val == va3(buf)) && (n == 5 ==> val == va4(buf)) && (n == 6 ==> val == va5(buf)) && (n == 7 ==> val == va6(buf)) && (n == 8 ==> val == va7(buf)) && (n == 9 ==> val == va8(buf)) && (n == 10 ==> val == wrap64(va9(buf)))
+//@   loop 1 invariant 0 <= ptr && ptr < len(buf) && (forall k int :: 0 <= k && k < ptr ==> buf[k] >= 128)
+//@   loop 1 invariant[value] (ptr == 0 ==> val == va0(buf)) && (ptr == 1 ==> val == va1(buf)) && (ptr == 2 ==> val == va2(buf)) && (ptr == 3 ==> val == va3(buf)) && (ptr == 4 ==> val == va4(buf)) && (ptr == 5 ==> val == va5(buf)) && (ptr == 6 ==> val == va6(buf)) && (ptr == 7 ==> val == va7(buf)) && (ptr == 8 ==> val == va8(buf)) && (ptr == 9 ==> val == wrap64(va9(buf)))
 //@   loop 1 decreases len(buf) - ptr
 
+// C01 layer 2 (prefix-compressed key): what decodeKey reads, in terms of the two varints at the start of the buffer
+// (kpre = shared prefix length, ksuf = suffix length * 8 + value type) and the suffix bytes behind them.
+//@ spec kpre(b []byte) int = vval(b)
+//@ spec ksufAt(b []byte) int = vlen(b)
 //@ func decodeKey
-//@   props C18 C19
+//@   results n, key, value, ok
+//@   props C18 C19 C01
 //@   nopanic
 //@   modifies nothing
 //@   ensures ok ==> 0 < n && n <= len(buf)
 //@   ensures !ok ==> n == 0
+//@   ensures[layout-lengths] ok && vlen(buf) >= 1 && vlen(buf[vlen(buf):]) >= 1 ==> value == vval(buf[vlen(buf):]) % 8 && len(key) == vval(buf) + vval(buf[vlen(buf):]) / 8 && n == vlen(buf) + vlen(buf[vlen(buf):]) + vval(buf[vlen(buf):]) / 8 && vval(buf) <= len(prevKey)
+//@   ensures[layout-prefix] ok && vlen(buf) >= 1 && vlen(buf[vlen(buf):]) >= 1 ==> (forall j int :: 0 <= j && j < vval(buf) ==> key[j] == prevKey[j])
+//@   ensures[layout-suffix] ok && vlen(buf) >= 1 && vlen(buf[vlen(buf):]) >= 1 ==> (forall t int :: vval(buf) <= t && t < len(key) ==> key[t] == buf[vlen(buf) + vlen(buf[vlen(buf):]) + t - vval(buf)])
+//@   ensures[rejects-only-malformed] !ok && vlen(buf) >= 1 && vlen(buf[vlen(buf):]) >= 1 && vlen(buf) <= len(buf) && vlen(buf) + vlen(buf[vlen(buf):]) <= len(buf) ==> vval(buf) > len(prevKey) || vval(buf[vlen(buf):]) / 8 > len(buf) - vlen(buf) - vlen(buf[vlen(buf):])
 
 //@ func decodeString
 //@   props C18 C19
@@ -116,9 +146,27 @@ package reftable
 //@   ensures !ok ==> n == 0
 //@   ensures[last-byte-ends] ok ==> buf[n-1] < 128
 //@   ensures[others-continue] ok ==> (forall k int :: 0 <= k && k < n - 1 ==> buf[k] >= 128)
+//@   ensures[as-spec] ok && n <= 9 ==> vlen(buf) == n && vval(buf) == old(val)
+//@   ensures[nine-bytes-suffice] ok && old(val) < 4611686018427387904 ==> n <= 9
+//@   ensures[value] ok ==> (n == 1 ==> old(val) == va0(buf)) && (n == 2 ==> old(val) == va1(buf)) && (n == 3 ==> old(val) == va2(buf)) && (n == 4 ==> old(val) == va3(buf)) && (n == 5 ==> old(val) == va4(buf)) && (n == 6 ==> old(val) == va5(buf)) && (n == 7 ==> old(val) == va6(buf)) && (n == 8 ==> old(val) == va7(buf)) && (n == 9 ==> old(val) == va8(buf)) && (n == 10 ==> old(val) == va9(buf))
 //@   loop 1 invariant[idx] -1 <= i && i <= 8 && dest[9] < 128 && (forall k int :: i + 1 <= k && k < 9 ==> dest[k] >= 128)
 //@   loop 1 invariant[bound] (i == 7 ==> val < 144115188075855872) && (i == 6 ==> val < 1125899906842624) && (i == 5 ==> val < 8796093022208) && (i == 4 ==> val < 68719476736) && (i == 3 ==> val < 536870912) && (i == 2 ==> val < 4194304) && (i == 1 ==> val < 32768) && (i == 0 ==> val < 256) && (i == -1 ==> val < 2)
+//@   loop 1 invariant[value] (i == 8 ==> old(val) == (val / 128) * 128 + dest[9] % 128) && (i == 7 ==> old(val) == ((val / 128) * 128 + dest[8] % 128 + 1) * 128 + dest[9] % 128) && (i == 6 ==> old(val) == (((val / 128) * 128 + dest[7] % 128 + 1) * 128 + dest[8] % 128 + 1) * 128 + dest[9] % 128) && (i == 5 ==> old(val) == ((((val / 128) * 128 + dest[6] % 128 + 1) * 128 + dest[7] % 128 + 1) * 128 + dest[8] % 128 + 1) * 128 + dest[9] % 128) && (i == 4 ==> old(val) == (((((val / 128) * 128 + dest[5] % 128 + 1) * 128 + dest[6] % 128 + 1) * 128 + dest[7] % 128 + 1) * 128 + dest[8] % 128 + 1) * 128 + dest[9] % 128) && (i == 3 ==> old(val) == ((((((val / 128) * 128 + dest[4] % 128 + 1) * 128 + dest[5] % 128 + 1) * 128 + dest[6] % 128 + 1) * 128 + dest[7] % 128 + 1) * 128 + dest[8] % 128 + 1) * 128 + dest[9] % 128) && (i == 2 ==> old(val) == (((((((val / 128) * 128 + dest[3] % 128 + 1) * 128 + dest[4] % 128 + 1) * 128 + dest[5] % 128 + 1) * 128 + dest[6] % 128 + 1) * 128 + dest[7] % 128 + 1) * 128 + dest[8] % 128 + 1) * 128 + dest[9] % 128) && (i == 1 ==> old(val) == ((((((((val / 128) * 128 + dest[2] % 128 + 1) * 128 + dest[3] % 128 + 1) * 128 + dest[4] % 128 + 1) * 128 + dest[5] % 128 + 1) * 128 + dest[6] % 128 + 1) * 128 + dest[7] % 128 + 1) * 128 + dest[8] % 128 + 1) * 128 + dest[9] % 128) && (i == 0 ==> old(val) == (((((((((val / 128) * 128 + dest[1] % 128 + 1) * 128 + dest[2] % 128 + 1) * 128 + dest[3] % 128 + 1) * 128 + dest[4] % 128 + 1) * 128 + dest[5] % 128 + 1) * 128 + dest[6] % 128 + 1) * 128 + dest[7] % 128 + 1) * 128 + dest[8] % 128 + 1) * 128 + dest[9] % 128) && (i == -1 ==> old(val) == ((((((((((val / 128) * 128 + dest[0] % 128 + 1) * 128 + dest[1] % 128 + 1) * 128 + dest[2] % 128 + 1) * 128 + dest[3] % 128 + 1) * 128 + dest[4] % 128 + 1) * 128 + dest[5] % 128 + 1) * 128 + dest[6] % 128 + 1) * 128 + dest[7] % 128 + 1) * 128 + dest[8] % 128 + 1) * 128 + dest[9] % 128)
 //@   loop 1 decreases i + 1
+
+//@ func lemmaVarIntRoundTrip
+//@   props C01 C14
+//@   modifies buf[0:len(buf)]
+
+//@ func lemmaKeyRoundTrip
+//@   props C01 C14
+//@   results k2, v2, fits, accepted
+//@   requires extra < 8
+//@   modifies buf[0:len(buf)]
+//@   ensures[decoder-accepts-what-the-encoder-wrote] fits ==> accepted
+//@   ensures[same-value-type] fits ==> v2 == extra
+//@   ensures[same-length] fits ==> len(k2) == len(key) && vval(buf) <= len(key)
+//@   ensures[same-character-at-every-position] fits && 0 <= i && i < len(key) ==> k2[i] == key[i]
 
 //@ func commonPrefixSize
 //@   props C14 C01
@@ -140,6 +188,12 @@ package reftable
 //@   ensures[size] fits ==> 2 <= n && n <= len(buf)
 //@   ensures[restart-means-full-key] fits ==> (restart <==> (len(prevKey) == 0 || len(key) == 0 || prevKey[0] != key[0]))
 //@   ensures[full-key-after-empty-predecessor] fits && prevKey == "" ==> restart
+//@   ensures[lv1] fits && extra < 8 ==> vlen(buf) >= 1 && vval(buf) <= len(prevKey) && vval(buf) <= len(key)
+//@   ensures[lv2] fits && extra < 8 ==> vlen(buf[vlen(buf):]) >= 1
+//@   ensures[lv3] fits && extra < 8 ==> vval(buf[vlen(buf):]) == (len(key) - vval(buf)) * 8 + extra
+//@   ensures[lv4] fits && extra < 8 ==> n == vlen(buf) + vlen(buf[vlen(buf):]) + len(key) - vval(buf)
+//@   ensures[layout-prefix] fits && extra < 8 ==> (forall j int :: 0 <= j && j < vval(buf) ==> prevKey[j] == key[j])
+//@   ensures[layout-suffix] fits && extra < 8 ==> (forall t int :: vval(buf) <= t && t < len(key) ==> key[t] == buf[vlen(buf) + vlen(buf[vlen(buf):]) + t - vval(buf)])
 
 // the value encoders of the four record types stay inside the buffer they are given (dynamic calls of record.encode are
 // resolved over these four contracts)
